@@ -446,9 +446,10 @@ V("C06", "module-level-dfa-cache", "fire", (MATCHER, "def find_all(expression: E
   "mutable cache hoisted to module level and written during analysis", "_DFA_CACHE")
 V("C06", "default-excludes-in-place", "fire", (SCN, "    excludes = DEFAULT_EXCLUDES.copy()\n", "    excludes = DEFAULT_EXCLUDES\n"),
   "built-in exclusions grow with every scan of the process", "DEFAULT_EXCLUDES")
-V("C06", "closure-returns-list-first", "fire", (EXPR, "def state_set_id(states: set[State]) -> str:\n    return \", \".join([str(id) for id in sorted([state.id for state in states])])",
+V("C06", "state-set-id-unsorted-silent", "silent", (EXPR, "def state_set_id(states: set[State]) -> str:\n    return \", \".join([str(id) for id in sorted([state.id for state in states])])",
                                                 "def state_set_id(states: set[State]) -> str:\n    return \", \".join([str(state.id) for state in states])"),
-  "state-set identity depends on set iteration order", "state_set_id")
+  "the identity string of a state set depends on iteration order: equal subsets may be expanded twice (duplicate DFA states), but the "
+  "automaton's language and every match are the same under both set orders (R8) - results do not depend on the hash seed")
 V("C06", "uuid-in-measurement", "fire", (SCN, "    file_loc = sum([m.value for m in measurements])\n", "    file_loc = sum([m.value for m in measurements])\n    logging.info(str(uuid4()))\n"),
   "random source on the analysis path", "uuid4")
 VARIANTS[-1]["edits"].append((SCN, "import locale\n", "import locale\nfrom uuid import uuid4\n"))
